@@ -630,6 +630,15 @@ class ExprMixin(object):
                 c = z3.BoolVal(a.py == b.py)
             else:
                 c = self.eq(st, a, b)
+                if not self.spec_mode:
+                    # identity of numbers, strings and containers is not equality: `x is y` implies x == y, the converse is
+                    # left open (9 is signal.SIGKILL is False; small-int / interning behaviour is not relied on)
+                    eqc = c
+                    c = z3.Bool(fresh_name('is'))
+                    facts = [z3.Implies(c, eqc)]
+                    if a.ty == VAL and b.ty == VAL:
+                        facts.append(z3.Implies(z3.And(eqc, z3.Or(Val.is_VNone(a.z), Val.is_VBool(a.z))), c))
+                    st = st.assume(*facts)
             return self.ok(st, SV(BOOL, c if isinstance(op, ast.Is) else z3.Not(c)))
         if isinstance(op, (ast.In, ast.NotIn)):
             rs = self.contains(st, b, a, node)
